@@ -58,12 +58,18 @@ def explore(ctx, body, max_paths=4000):
 
 def resolve_function(repo, qualname):
     mod, rest = qualname.split(":")
+    acc = None
     if "@" in rest:
-        rest = rest.split("@")[0]
+        rest, acc = rest.split("@")
     if "." in rest:
         cname, fname = rest.split(".")
         ci = repo.modules[mod].classes[cname]
-        fi = repo.find_method(ci, fname)
+        if acc == "getter":
+            fi = repo.find_getter(ci, fname)
+        elif acc == "setter":
+            fi = repo.find_setter(ci, fname)
+        else:
+            fi = repo.find_method(ci, fname)
         if fi is None:
             raise KeyError(qualname)
         return fi, ci
@@ -221,7 +227,9 @@ def verify_function(make_ctx, reg, qualname, timeout_ms=10000, both=False):
         rep.time = time.time() - t0
         return rep
     seen = {}
+    known_regions = getattr(reg, "known_regions", [])
     for run, outcome in results:
+        bad_goals = []
         rep.paths += 1
         pid = "".join("T" if d else "F" for d in run.decisions) or "-"
         if outcome[0] == "normal":
@@ -240,7 +248,20 @@ def verify_function(make_ctx, reg, qualname, timeout_ms=10000, both=False):
             if key in seen:
                 continue
             seen[key] = ob
+            if bad_goals:
+                # an obligation that failed earlier on this path is not assumed by the later ones: every clause is
+                # judged on its own, so a failure tagged for one property cannot mask one tagged for another
+                ob.pc = [p_ for p_ in ob.pc if not any(p_ is g for g in bad_goals)]
             smt.discharge(ob, ctx.facts, timeout_ms=timeout_ms, both=both)
+            if ob.verdict != "proved":
+                bad_goals.append(ob.goal)
+            if ob.verdict == "refuted":
+                for kr in known_regions:
+                    if kr["function"] == qualname and kr["clause_contains"] in (ob.clause or ""):
+                        inside = region_only(run, reg, ctx, ob, kr, timeout_ms)
+                        if inside:
+                            ob.known = kr["id"]
+                        break
             if ob.verdict == "refuted" and ob.model is not None:
                 ob.cex = model_inputs(run, ob.model)
             rep.obligations.append(ob)
@@ -254,6 +275,35 @@ def verify_function(make_ctx, reg, qualname, timeout_ms=10000, both=False):
     rep.time = time.time() - t0
     rep.ctx = ctx
     return rep
+
+
+def region_only(run, reg, ctx, ob, kr, timeout_ms):
+    """True iff every counterexample of the refuted obligation lies inside the known finding's region (a clause over
+    the pre-state); otherwise the obligation's model is replaced by one outside the region"""
+    it = X.Interp(run)
+    fr = X.Frame(dict(run.old_state.env), None, None, module=None)
+    saved_pc, saved_obl = list(run.pc), len(run.obligations)
+    try:
+        r = eval_in_old(it, reg, kr["region"], fr, run.old_state)
+    except Unsupported:
+        return False
+    finally:
+        run.pc[:] = saved_pc
+        del run.obligations[saved_obl:]
+    s = z3.Solver()
+    s.set("timeout", timeout_ms)
+    for f in ctx.facts:
+        s.add(f)
+    for p_ in ob.pc:
+        s.add(p_)
+    s.add(z3.Not(ob.goal))
+    s.add(z3.Not(zbool(r)))
+    res = s.check()
+    if res == z3.unsat:
+        return True
+    if res == z3.sat:
+        ob.model = s.model()
+    return False
 
 
 def eval_in_old(it, reg, text, fr, old):
